@@ -103,6 +103,7 @@ def schedule_rules(R, lib):
         for n, (t, node) in fields.items():
             attrs[n] = UNINIT
         obj = AObj(attrs, oid='clock', cls=SCL, ftypes=ftypes)
+        obj.ptrs = frozenset(n for n, (t, _n) in fields.items() if t and '*' in t)
         argv = {'reference': ref, 'backup': backup, 'syncperiod': sync, 'initialsyncperiod': initial, 'requesttimeout': timeout, 'timingstats': None}
         args = []
         for pn, pt in ctor.params:
@@ -136,8 +137,16 @@ def schedule_rules(R, lib):
     def note(rid, c, text):
         first.setdefault((rid, c), text)
 
+    from .aeval import freeze, _copy_value
+
     def snapshot(obj):
-        return tuple(sorted((k, v if isinstance(v, (int, type(None))) else (v.oid if isinstance(v, AObj) else id(v))) for k, v in obj.attrs.items()))
+        return freeze(obj)
+
+    def clone(obj):
+        # a copy of the clock by value: members of class type are copied, the clocks it points to are shared
+        c = _copy_value(obj)
+        c.oid = 'clock'
+        return c
 
     for cfg_ in configs:
         for kind in kinds:
@@ -172,7 +181,7 @@ def schedule_rules(R, lib):
                     if spec['model'] is not None:
                         counts['S5'] += 1
                         state['m'] = now
-                        o2 = AObj(dict(obj.attrs), oid='clock', cls=SCL, ftypes=ftypes)
+                        o2 = clone(obj)
                         try:
                             v = call(getnow, o2)
                         except (Raised, TypeError) as x_:
@@ -186,7 +195,7 @@ def schedule_rules(R, lib):
                 for step in cfg_['steps']:
                     t = now + step
                     for answer in ('none', 'valid', 'invalid'):
-                        o = AObj(dict(obj.attrs), oid='clock', cls=SCL, ftypes=ftypes)
+                        o = clone(obj)
                         sp = dict(spec)
                         state.update(m=t, events=[], answer=answer, asked=False, value=cfg_['value'](t) if 'value' in cfg_ else 2000000 + t // 1000 + ((t // 1000) % 2))
                         try:
@@ -256,7 +265,7 @@ def schedule_rules(R, lib):
                             c2 = 'schedule[%s]:valid-response' % label
                             value = state['value']
                             prev_reading = None if sp['model'] is None else sp['model'][0] + (t - sp['model'][1]) // 1000
-                            o2 = AObj(dict(o.attrs), oid='clock', cls=SCL, ftypes=ftypes)
+                            o2 = clone(o)
                             state['m'] = t
                             try:
                                 r = call(getnow, o2)
@@ -279,7 +288,7 @@ def schedule_rules(R, lib):
                             if sets:
                                 note('S3', c3, 'schedule %s: %s is written in a call that applies no response' % (here, sets))
                             try:
-                                ls_now = call(lastsync[0], AObj(dict(o.attrs), oid='clock', cls=SCL, ftypes=ftypes))
+                                ls_now = call(lastsync[0], clone(o))
                             except (Raised, TypeError) as x_:
                                 ls_now = 'raises %s' % x_
                             if sp['lastsync'] is not None and ls_now != sp['lastsync']:
